@@ -1,4 +1,4 @@
-import Gv.Proofs.DistColsRows
+import Gv.Proofs.DistColsRevAll
 /-!
 # C08 (first half) — nucleotide distances depend only on the multiset of weighted columns
 
@@ -16,9 +16,11 @@ permutation, `Concat` with itself, integer weights and explicit unit weights are
 Preconditions (`WF`): the rows have one length (an `align.Alignment` is rectangular by
 construction) and the weight vector has an entry for every column (`weights[i]` panics otherwise).
 
-Exempt (by the property, and necessarily — `internal_gaps_not_permutation_invariant`,
-`internal_gaps_not_replication_invariant`): the internal-gap counter, i.e. `rawdist` / `pdist` with
-`countgapmut = 1` (`usesInternalGaps_iff`).
+Exempt from permutation / replication (by the property, and necessarily —
+`internal_gaps_not_permutation_invariant`, `internal_gaps_not_replication_invariant`): the internal-gap
+counter, i.e. `rawdist` / `pdist` with `countgapmut = 1` (`internal_gaps_exactly`).  It is *not* exempt
+from the strand and row relations: complement, reversal (non-negative weights), unit weights and row
+permutation are proved for it too.
 
 Helper developments: `Proofs/DistCols*.lean`.
 -/
@@ -252,13 +254,51 @@ theorem distMatrix_complement (c : Cfg ℝ) (rows : List Seq) (hwf : WF rows c.w
   distMatrix_complementRows c rows hwf hok r1min r1max r2min r2max
 
 /-- **reverse complement of the whole alignment** (the weights are reversed with their columns): same
-matrix; counting modes 0 and 2 (for mode 1 see `PARTIAL` of the check module) -/
+matrix; counting modes 0 and 2, any real weights (mode 1: `distMatrix_reverse_complement_all_modes`) -/
 theorem distMatrix_reverse_complement (c : Cfg ℝ) (rows : List Seq) (hwf : WF rows c.weights)
     (hok : rows.all (fun r => r.all okByte) = true) (hint : usesInternalGaps c.model c.gapMode = false)
     (r1min r1max r2min r2max : Int) :
     distMatrix { c with weights := reverseWeights (alnLen rows) c.weights } (revcompRows rows) r1min r1max r2min r2max
       = distMatrix c rows r1min r1max r2min r2max :=
   distMatrix_revcompRows c rows hwf hok hint r1min r1max r2min r2max
+
+/-- the internal-gap counter reads the same from both ends: leading gap runs become trailing ones and are
+ignored alike.  `hsel`: the selection is ignored / all-true, or only selects sites where both rows hold a
+nucleotide (what `selectedSites` produces); weights non-negative (`math.Max` of the two trailing sums). -/
+theorem internal_gaps_reversal_invariant (honour rmAmb : Bool) (l : List (Site ℝ)) (hw : ∀ s ∈ l, 0 ≤ s.w)
+    (hlow : ∀ s ∈ l, s.a ≤ 15 ∧ s.b ≤ 15) (hsel : SelShape n1S n2S (actS honour) l) :
+    countDiffsWithInternalGaps honour rmAmb l.reverse = countDiffsWithInternalGaps honour rmAmb l :=
+  internalGaps_reverse honour rmAmb l hw hlow hsel
+
+/-- non-vacuity: `-A-A` / `AAAA` with weights 1, 2, 3, 4 (codes 0 = gap, 1 = A), everything selected -/
+example : let l : List (Site ℝ) := [⟨0, 1, true, 1⟩, ⟨1, 1, true, 2⟩, ⟨0, 1, true, 3⟩, ⟨1, 1, true, 4⟩]
+    (∀ s ∈ l, 0 ≤ s.w) ∧ (∀ s ∈ l, s.a ≤ 15 ∧ s.b ≤ 15) ∧ SelShape n1S n2S (actS true) l := by
+  refine ⟨?_, ?_, Or.inl ?_⟩
+  · intro s hs
+    simp only [List.mem_cons, List.mem_nil_iff, or_false] at hs
+    rcases hs with rfl | rfl | rfl | rfl <;> norm_num
+  · intro s hs
+    simp only [List.mem_cons, List.mem_nil_iff, or_false] at hs
+    rcases hs with rfl | rfl | rfl | rfl <;> exact ⟨by decide, by decide⟩
+  · intro s hs
+    simp only [List.mem_cons, List.mem_nil_iff, or_false] at hs
+    rcases hs with rfl | rfl | rfl | rfl <;> simp [actS, n1S, n2S]
+
+/-- **reversing the column order**, every counting mode (the internal-gap one included), non-negative weights -/
+theorem distMatrix_reverse_columns (c : Cfg ℝ) (rows : List Seq) (hwf : WF rows c.weights)
+    (hpos : ∀ v, c.weights = some v → ∀ x ∈ v, 0 ≤ x) (r1min r1max r2min r2max : Int) :
+    distMatrix { c with weights := reverseWeights (alnLen rows) c.weights } (reverseRows rows) r1min r1max r2min r2max
+      = distMatrix c rows r1min r1max r2min r2max :=
+  distMatrix_reverseRows c rows hwf hpos r1min r1max r2min r2max
+
+/-- **reverse complement of the whole alignment, every counting mode** (`countgapmut` 0, 1, 2), every model,
+non-negative weights -/
+theorem distMatrix_reverse_complement_all_modes (c : Cfg ℝ) (rows : List Seq) (hwf : WF rows c.weights)
+    (hok : rows.all (fun r => r.all okByte) = true) (hpos : ∀ v, c.weights = some v → ∀ x ∈ v, 0 ≤ x)
+    (r1min r1max r2min r2max : Int) :
+    distMatrix { c with weights := reverseWeights (alnLen rows) c.weights } (revcompRows rows) r1min r1max r2min r2max
+      = distMatrix c rows r1min r1max r2min r2max :=
+  distMatrix_revcompRows_all c rows hwf hok hpos r1min r1max r2min r2max
 
 /-- `revcompRows` is what the model of `ReverseComplement` (property C06) returns for each row when it succeeds -/
 theorem revcompRows_is_ReverseComplement (s r : Seq) (h : Gv.Model.revcompSeq s = (r, false)) :
